@@ -266,7 +266,7 @@ def explore_parallel(prog, factory, fargs=(), dev=True, nproc=None, split_target
 def _explore_one(ctx, run, on_path):
     """one iteration of Ctx.explore"""
     from mirsym.values import PanicExc, StopAtCall, Infeasible
-    ctx.script = ctx.todo.pop(); ctx.di = 0; ctx.pc = []; ctx.nfresh = 0; ctx.depth = 0; ctx.cur_fn = None
+    ctx.script = ctx.todo.pop(); ctx.di = 0; ctx.pc = []; ctx.path_steps = 0; ctx.nfresh = 0; ctx.depth = 0; ctx.cur_fn = None
     try:
         out = ('ret', run())
     except PanicExc as e:
